@@ -320,6 +320,26 @@ fn run(sc: &Value) -> Value {
                     Err(err) => json!({"err": format!("{:#}", err)}),
                 }
             }
+            "mint" => {
+                let to = w.addr(st["to"].as_str().unwrap());
+                let f = w.subst(&st["funds"]);
+                let msg = cw_multi_test::SudoMsg::Bank(cw_multi_test::BankSudo::Mint { to_address: to.to_string(), amount: coins_of(&f) });
+                match w.app.sudo(msg) {
+                    Ok(_) => json!({"ok": null}),
+                    Err(err) => json!({"err": format!("{:#}", err)}),
+                }
+            }
+            "set_pool" => {
+                // inject a pool pre-state through the contract's own storage definition
+                let v = w.subst(&st["pool"]);
+                let pool: mantra_dex_std::pool_manager::PoolInfo = serde_json::from_value(v).expect("PoolInfo json");
+                let pm = w.addr("pool_manager");
+                let mut stg = w.app.contract_storage_mut(&pm);
+                match pool_manager::state::POOLS.save(&mut *stg, &pool.pool_identifier.clone(), &pool) {
+                    Ok(_) => json!({"ok": null}),
+                    Err(err) => json!({"err": format!("{:#}", err)}),
+                }
+            }
             "addr" => {
                 let a = w.addr(st["label"].as_str().unwrap());
                 json!({"ok": a.to_string()})
